@@ -43,4 +43,36 @@ func ZZC07Unquote() {
 	}
 }
 
-var ZZHarnesses = map[string]func(){"ZZC07Unquote": ZZC07Unquote}
+// ZZC07UnquoteHigh: longer literals made of bytes >= 0x80 only (each malformed byte decodes to the
+// three bytes of U+FFFD, the worst growth the decoder meets), optionally after some ASCII text.
+func ZZC07UnquoteHigh() {
+	n := v.Choose(v.Param("minhigh", 6), v.Param("maxhigh", 12))
+	body := v.Bytes(n)
+	// one class of malformed bytes per run: continuation bytes without a lead byte, or bytes that
+	// never occur in UTF-8 (free mixtures of lead and continuation bytes are covered up to 6 bytes
+	// by ZZC07Unquote; beyond that they multiply paths without adding growth)
+	never := v.Choose(0, 1) == 1
+	for _, c := range body {
+		if never {
+			v.Assume(c >= 0xf8)
+		} else {
+			v.Assume(c >= 0x80 && c <= 0xbf)
+		}
+	}
+	s := []byte{'"'}
+	if v.Choose(0, 1) == 1 {
+		s = append(s, "ab"...)
+	}
+	s = append(append(s, body...), '"')
+	v.Observe("literal", s)
+	panicked := true
+	func() {
+		defer func() { recover() }()
+		_ = Bytes(s).Unquote()
+		panicked = false
+	}()
+	v.Assert(!panicked, "C07/unquote-panics")
+	v.Reach("C07/unquote-high")
+}
+
+var ZZHarnesses = map[string]func(){"ZZC07Unquote": ZZC07Unquote, "ZZC07UnquoteHigh": ZZC07UnquoteHigh}
